@@ -20,14 +20,16 @@ Definition c10_spec (k d : nat) (f : list QcPoly) (inits : list (list Qc)) (t : 
   : list Z :=
   show_vecs (Some (spec_derivs (mkVF k d f) t inits num)).
 
-(* alg: 0 padded_scan, 1 unroll, 2 via_jvp, 3 doubling (num = num_doublings) *)
+(* alg: 0 padded_scan, 1 unroll, 2 via_jvp (as coded now: t is a primal with tangent one),
+   3 doubling (num = num_doublings), 4 via_jvp before the repair (t closed over) *)
 Definition c10_alg (alg : nat) (v : @vfield Qc) (inits : list (list Qc)) (t : Qc) (num : nat)
   : option (list (list Qc)) :=
   match alg with
   | 0 => padded_scan_model v inits t num
   | 1 => unroll_model v inits t num
-  | 2 => via_jvp_model v inits t num
-  | _ => doubling_model v inits t num
+  | 2 => via_jvp_fixed_model v inits t num
+  | 3 => doubling_model v inits t num
+  | _ => via_jvp_model v inits t num
   end.
 
 Definition c10_model (alg k d : nat) (f : list QcPoly) (inits : list (list Qc)) (t : Qc)
